@@ -3,6 +3,7 @@ package exec
 import (
 	"fmt"
 	"go/token"
+	"os"
 	"go/types"
 	"runtime/debug"
 	"sort"
@@ -25,6 +26,7 @@ type Config struct {
 	Preempt     int // pre-emption bound for the scheduler
 	Verbose     bool
 	PanicsAreViolations bool
+	Progress    int
 }
 
 type Input struct {
@@ -126,6 +128,8 @@ type Machine struct {
 	harness  string
 	ghost    map[interface{}]interface{}
 	pathReached []string
+	facts    map[*sym.Term]*sym.Term
+	lastProgress time.Time
 }
 
 func NewMachine(prog *ssa.Program, ctx *sym.Ctx, solver *sym.Solver, cfg Config) *Machine {
@@ -159,6 +163,7 @@ func (m *Machine) addPC(t *sym.Term) {
 		return
 	}
 	m.pc = append(m.pc, t)
+	m.addFact(t)
 }
 
 func (m *Machine) setModel(md *sym.Model) {
@@ -268,6 +273,7 @@ func (m *Machine) decide(kind string, conds []*sym.Term) int {
 
 // branch forks on a boolean condition.
 func (m *Machine) branch(c *sym.Term) bool {
+	c = m.simplify(c)
 	if c.IsConst() {
 		return c.Val != 0
 	}
@@ -341,6 +347,7 @@ func (m *Machine) concretize(t *sym.Term, limit int) int64 {
 // check: cond must hold, otherwise a violation of the given kind is recorded.
 // Execution continues on the side where cond holds.
 func (m *Machine) check(cond *sym.Term, kind, label string) {
+	cond = m.simplify(cond)
 	if cond.IsTrue() {
 		return
 	}
@@ -381,6 +388,7 @@ func (m *Machine) check(cond *sym.Term, kind, label string) {
 
 // assume restricts the path; ends it when infeasible.
 func (m *Machine) assume(cond *sym.Term) {
+	cond = m.simplify(cond)
 	if cond.IsTrue() {
 		return
 	}
@@ -535,6 +543,7 @@ func (m *Machine) resetPath() {
 	m.initMode = 0
 	m.sched = nil
 	m.ghost = map[interface{}]interface{}{}
+	m.facts = nil
 	m.pathReached = nil
 }
 
@@ -567,6 +576,10 @@ func (m *Machine) Explore(fn *ssa.Function) Outcome {
 		m.Stats.Steps += int64(m.steps)
 		if !m.backtrack() {
 			break
+		}
+		if m.Cfg.Progress > 0 && time.Since(m.lastProgress) > time.Duration(m.Cfg.Progress)*time.Second {
+			m.lastProgress = time.Now()
+			fmt.Fprintf(os.Stderr, "    … %s: %d paths, %d queries (%.1fs solver), depth %d, %d violations\n", m.harness, m.Stats.Paths, m.solver.Queries, m.solver.Time.Seconds(), len(m.stack), len(m.Violations))
 		}
 		if m.Cfg.MaxPaths > 0 && m.Stats.Paths >= m.Cfg.MaxPaths {
 			return Outcome{false, fmt.Sprintf("path limit %d reached", m.Cfg.MaxPaths)}
